@@ -84,7 +84,9 @@ theorem pkg_vars :
       "ErrOutOfBoundsScore:error", "ErrTooShortVector:error", "highestSeverityVectors:[][][]int",
       "highestSeverityVectorsEQ3EQ6:[][][]int", "order:[][]string", "sevIdx:[][]uint8"] := by decide
 
-/-- the hand-written pool model describes `ParseVector` and `split` as they are in the source now -/
+/-- the hand-written pool model describes `ParseVector` and `split` as they are in the source now
+    (hash tie; superseded by the proofs of `Cvss/Props/C14b.lean`, which show that each `tick` of the machine is one
+    application of the regenerated loop bodies `GenP20.split_for1` / `GenP20.ParseVector_range1`) -/
 theorem pool_model_src_tie :
     GenV20.srchash_ParseVector = "6ba832cb7d7b2587" ∧ GenV20.srchash_split = "878dcaa8ae6b288d" :=
   Model.v20_src_tie
